@@ -386,6 +386,21 @@ def canon_schedules():
         k._act("Freeze", "A")
         k.send("A", "v1" if v1 else "v2", ["ok"])            # send through a frozen client: must fail
         out.append(k.s)
+    # ORDERED: a delivered packet is still unacknowledged when its successor times out and closes the channel:
+    # the closed end must refuse the late acknowledgement and any further send
+    k = _Canon("CANON-CLOSE-ORDERED", "ORDERED")
+    p1 = k.send("A", "v1", ["ok"], toT=300)
+    p2 = k.send("A", "v1", ["ok"], toT=0, toH=k.h["B"] + 4)
+    ph = k.sync("B")
+    k.relay("Recv", "B", p1, ph)
+    for _ in range(4):
+        k._act("Block", "B")
+    ph = k.sync("A")
+    k.relay("Timeout", "A", p2, ph, nsr=2)               # closes A's end
+    k.relay("Ack", "A", p1, ph, ack=["ok"], canon=True)  # acknowledgement for a closed end: must be rejected
+    k.send("A", "v1", ["ok"], toT=300)                   # send on a closed end: must be rejected
+    k.relay("Recv", "B", p2, 0)                           # B's end is still open, but the packet has timed out
+    out.append(k.s)
     # short trusting period: expiry of a live client, and "frozen stays Frozen" after the trusting period has passed
     for kind in ("UNORDERED", "V2"):
         k = _Canon("CANON-TP-%s" % kind, kind)
